@@ -16,7 +16,10 @@ Proved with the optimiser as a parameter: _run stores the first minimum of the r
 loss_inferred = min(loss_runs), the stored point attains it; add_run keeps the lower loss,
 concatenates losses, any merge order gives the global minimum; bootstraps append one row; create_run
 uses the given start values and rejects out-of-bounds ones (pre-fix variant refuted). Cache
-transparency is C17. Partial: L-BFGS-B behaviour, recovery of generating parameters.
+transparency is C17. The loss functions (norms, Poisson likelihood) are zero / minimal exactly at
+the generating values, so a run that reaches the global minimum of an identifiable model on noise-
+free data reports the generating parameters. Partial: L-BFGS-B behaviour (that some run reaches the
+global minimum is a hypothesis).
 
 This file restates the theorems the property rests on (full statements; proofs are in PGProofs/).
 Generated once by harness/mkprops.py from harness/props_table.py + PGProperties/extra/C19.lean.in; committed as source.
@@ -25,12 +28,40 @@ import PGProofs.InferenceThm
 import PGProofs.InferenceLabels
 import PGProofs.CacheThm
 import PGProofs.ShareThm
+import PGProofs.LossThm
 
 set_option linter.all false
 set_option pp.fieldNotation.generalized false
 
 namespace PG.C19
 open PG
+
+/-- L1 loss is zero exactly when modelled = observed (same for Linf, squared L2: linf_eq_zero_iff, sqL2_eq_zero_iff) -/
+theorem loss_norm_zero_iff : ∀ (a b : List ℚ), List.length a = List.length b → (Loss.l1 a b = 0 ↔ a = b) := @PG.Loss.l1_eq_zero_iff
+
+/-- Linf -/
+theorem loss_linf_zero_iff : ∀ (a b : List ℚ), List.length a = List.length b → (Loss.linf a b = 0 ↔ a = b) := @PG.Loss.linf_eq_zero_iff
+
+/-- squared L2 -/
+theorem loss_sql2_zero_iff : ∀ (a b : List ℚ), List.length a = List.length b → (Loss.sqL2 a b = 0 ↔ a = b) := @PG.Loss.sqL2_eq_zero_iff
+
+/-- the negative Poisson log-likelihood of positive counts is minimal exactly at modelled = observed -/
+theorem loss_poisson_min_at_truth : ∀ (c : ℝ → ℝ) (k mu : List ℝ), List.length k = List.length mu → (∀ x ∈ k, 0 < x) → (∀ x ∈ mu, 0 < x) → Loss.poissonNLL c k k ≤ Loss.poissonNLL c k mu ∧ (Loss.poissonNLL c k mu = Loss.poissonNLL c k k ↔ mu = k) := @PG.Loss.poissonNLL_min_at_truth
+
+/-- noise-free data of an identifiable model: the generating parameter is the unique minimiser of the Poisson loss -/
+theorem loss_noise_free_recovered : ∀ {Θ : Type u_1} (c : ℝ → ℝ) (m : Θ → List ℝ) (θstar : Θ), (∀ (θ : Θ), ∀ x ∈ m θ, 0 < x) → (∀ (θ : Θ), List.length (m θ) = List.length (m θstar)) → (∀ (θ : Θ), Loss.poissonNLL c (m θstar) (m θstar) ≤ Loss.poissonNLL c (m θstar) (m θ)) ∧ (∀ (θ : Θ), Loss.poissonNLL c (m θstar) (m θ) = Loss.poissonNLL c (m θstar) (m θstar) ↔ m θ = m θstar) ∧ (Function.Injective m → ∀ (θ : Θ), (∀ (θ' : Θ), Loss.poissonNLL c (m θstar) (m θ) ≤ Loss.poissonNLL c (m θstar) (m θ')) ↔ θ = θstar) := @PG.Loss.noise_free_recovered
+
+/-- with the best-run theorem: if some run reaches the global minimum, params_inferred is the generating parameter (Poisson loss) -/
+theorem loss_best_run_truth_poisson : ∀ (c : ℝ → ℝ) (D : List ℚ → Prop) (m : List ℚ → List ℝ) (θstar : List ℚ), D θstar → (∀ (θ : List ℚ), D θ → ∀ x ∈ m θ, 0 < x) → (∀ (θ : List ℚ), D θ → List.length (m θ) = List.length (m θstar)) → (∀ (θ : List ℚ), D θ → ∀ (θ' : List ℚ), D θ' → m θ = m θ' → θ = θ') → ∀ (s : Inference.State) (rs : List Inference.Run), (∀ r ∈ rs, D r.x) → (∀ r ∈ rs, ∀ r' ∈ rs, r.f ≤ r'.f → Loss.poissonNLL c (m θstar) (m r.x) ≤ Loss.poissonNLL c (m θstar) (m r'.x)) → (∃ r ∈ rs, ∀ (θ : List ℚ), D θ → Loss.poissonNLL c (m θstar) (m r.x) ≤ Loss.poissonNLL c (m θstar) (m θ)) → ∃ s', Inference.runWith s rs = Except.ok s' ∧ Inference.State.paramsInferred s' = some θstar ∧ ∃ f, Inference.State.lossInferred s' = some f ∧ f ∈ List.map (fun x ↦ x.f) rs ∧ ∀ y ∈ List.map (fun x ↦ x.f) rs, f ≤ y := @PG.Loss.best_run_is_truth_poisson
+
+/-- the same for the norm losses; loss_inferred = 0 -/
+theorem loss_best_run_truth_norm : ∀ (loss : List ℚ → List ℚ → ℚ), (∀ (a b : List ℚ), 0 ≤ loss a b) → (∀ (a b : List ℚ), List.length a = List.length b → (loss a b = 0 ↔ a = b)) → ∀ (D : List ℚ → Prop) (m : List ℚ → List ℚ) (θstar : List ℚ), D θstar → (∀ (θ : List ℚ), D θ → List.length (m θ) = List.length (m θstar)) → (∀ (θ : List ℚ), D θ → ∀ (θ' : List ℚ), D θ' → m θ = m θ' → θ = θ') → ∀ (s : Inference.State) (rs : List Inference.Run), (∀ r ∈ rs, D r.x) → (∀ r ∈ rs, r.f = loss (m θstar) (m r.x)) → (∃ r ∈ rs, r.f = 0) → ∃ s', Inference.runWith s rs = Except.ok s' ∧ Inference.State.paramsInferred s' = some θstar ∧ Inference.State.lossInferred s' = some 0 := @PG.Loss.best_run_is_truth_norm
+
+/-- skipping empty classes (a seeded change) drops exactly the modelled mass of those classes -/
+theorem loss_skip_zero_identity : ∀ (c : ℝ → ℝ) (k mu : List ℝ), (∀ x ∈ k, 0 ≤ x) → Loss.poissonNLL c k mu = Loss.poissonNLLSkip c k mu + Loss.emptyMass c k mu := @PG.Loss.poissonNLLSkip_eq
+
+/-- and then prefers a wrong parameter: minimiser 10 instead of the maximum-likelihood value 100/11 on a concrete scaling family -/
+theorem loss_skip_zero_wrong_parameter : type_of% @PG.Loss.skip_variant_wrong_parameter := @PG.Loss.skip_variant_wrong_parameter   -- (printed statement does not re-elaborate; see the source lemma)
 
 /-- after _run: first minimum, loss_inferred = min, params belong to it, loss_runs recorded -/
 theorem best : ∀ (s : Inference.State) (rs : List Inference.Run), rs ≠ [] → ∃ s' b, Inference.runWith s rs = Except.ok s' ∧ s'.best = some b ∧ Inference.FirstMin rs b ∧ b ∈ rs ∧ (∀ r ∈ rs, b.f ≤ r.f) ∧ Inference.State.lossInferred s' = some b.f ∧ b.f ∈ List.map (fun x ↦ x.f) rs ∧ (∀ y ∈ List.map (fun x ↦ x.f) rs, b.f ≤ y) ∧ Inference.State.paramsInferred s' = some b.x ∧ s'.lossRuns = List.map (fun x ↦ x.f) rs ∧ s'.bootstraps = s.bootstraps ∧ Inference.State.ran s' = true := @PG.Inference.C19_best
@@ -88,6 +119,15 @@ theorem cache_flag_irrelevant : ∀ {E M : Type} [inst : BEq E] [LawfulBEq E] (c
 
 end PG.C19
 
+#print axioms PG.C19.loss_norm_zero_iff
+#print axioms PG.C19.loss_linf_zero_iff
+#print axioms PG.C19.loss_sql2_zero_iff
+#print axioms PG.C19.loss_poisson_min_at_truth
+#print axioms PG.C19.loss_noise_free_recovered
+#print axioms PG.C19.loss_best_run_truth_poisson
+#print axioms PG.C19.loss_best_run_truth_norm
+#print axioms PG.C19.loss_skip_zero_identity
+#print axioms PG.C19.loss_skip_zero_wrong_parameter
 #print axioms PG.C19.best
 #print axioms PG.C19.first_minimum
 #print axioms PG.C19.merge
